@@ -21,7 +21,8 @@ func init() {
 			"R5 data key/value type agreement of every Lookup/WithValue pair; R6 the matched slot is assigned exactly when the produced value's type is AssignableTo the slot (assigned only under the test, and the test's true edge always reaches the assignment — a site is left unchanged only when the replacement is not admissible); " +
 			"R7 matching and replacing never write into the compiled program (matchers, replacers, compilers, Meta): a capture is a pure function of the matched value, no cache. " +
 			"R8 every recorded site is rewritten; R9 what a metavariable captures is the code at the matched position — every matcher hands its sub-matchers projections (Elem / Field / Index / list elements) of its own candidate, never a rebuilt value (parentheses looked through, reflect.ValueOf of a part). " +
-			"NOT decided: that the instantiation is textually the '+' pattern (go/printer), position bookkeeping, which sites are chosen.",
+			"NOT decided: that the instantiation is textually the '+' pattern (go/printer), position bookkeeping, which sites are chosen." +
+			" R11 a half-applied change is never emitted (a failed Change.Replace ends the file in the command and the library); R8 also: matches are replaced innermost first (F15).",
 		Trusted:     commonTrusted,
 		Assumptions: commonAssumptions,
 	})
